@@ -37,3 +37,10 @@ MANIFEST = {
     "note": "Trusted: Lean kernel + 3 standard axioms; harness/driver/check.py glue; walker, mpsc, atomics and serde_json contracts are hypotheses of the theorems (Run.Valid, RecordsNonEmpty) sampled by the oracle; real thread schedules are sampled, not enumerated.",
     "technique": "Lean 4 proof over hand-written executable model (inductive interleavings, Perm) + end-to-end differential correspondence through the real CLI with fault injection + property oracle (union of single-file runs, exit status equal across thread counts, stdout parses)",
 }
+
+
+# slice inspect: the CLI's own accounting of files and rules (`--inspect`), tied to the worker and selection models
+ENTRY["lean_modules"] += ["AstGrepVerif.Props.Inspect"]
+ENTRY["theorems"] += ['AGV.Inspect.counts_exact', 'AGV.Inspect.counts_partition_iff', 'AGV.Inspect.counts_exact_partial', 'AGV.Inspect.counts_exact_doc_counterexample', 'AGV.Inspect.scanned_counts_unread_counterexample', 'AGV.Inspect.counts_schedule_irrelevant', 'AGV.Inspect.entity_lines_schedule_irrelevant', 'AGV.Inspect.trace_schedule_irrelevant', 'AGV.Inspect.summary_trace_schedule_irrelevant', 'AGV.Inspect.entity_lines_once_run', 'AGV.Inspect.entity_lines_once_run_spec', 'AGV.Inspect.entity_lines_scan', 'AGV.Inspect.entity_lines_once_scan_partial', 'AGV.Inspect.entity_lines_once_scan_counterexample', 'AGV.Inspect.entity_lines_skipped_scan_counterexample', 'AGV.Inspect.scan_skipped_iff', 'AGV.Inspect.scan_scanned_iff', 'AGV.Inspect.scan_skipped_no_finding', 'AGV.Inspect.run_skipped_no_finding', 'AGV.Inspect.findings_only_from_unskipped', 'AGV.Inspect.sequential_valid', 'AGV.Inspect.partition_valid', 'AGV.Inspect.exRun_valid']
+ENTRY["units"] += ["inspect"]
+ENTRY["trusted_base"] += ["slice inspect — modelled, not verified: utils/inspect.rs (Granularity ordering, FileTrace counters, print/print_file/print_rules as abstract lines), where the counters are bumped in run_worker, filter_file_rule / collect_file_stats / filter_file_pattern, produce_item of run and scan, read_directory_yaml / with_rule_stats rule counts; assumed: a trace line is written atomically (output Mutex), the summary is printed after every walker thread is done (channel closed), stderr writes do not fail; the walker's choice of paths is Model/Select.walkerVisits (scan) / Inspect.runWalkerVisits (run), exercised not proved"]
